@@ -101,7 +101,8 @@ func (e *C15) Run(c *core.Ctx, idx int) {
 	p := e.pop
 	data, desc, fi := relInput(c, p, idx)
 	r := c.Rng(idx, 15)
-	for _, ei := range p.natural[fi] {
+	nat := natEntries(p, fi, data)
+	for _, ei := range nat {
 		ent := p.entries[ei]
 		restoreDefaults()
 		imagemeta.VerifResetState()
@@ -148,6 +149,6 @@ func (e *C15) Run(c *core.Ctx, idx int) {
 	}
 	restoreDefaults()
 	if c.Rec.WantSample() && idx%31 == 0 {
-		c.Rec.Sample(map[string]any{"input": desc, "len": len(data), "entries": len(p.natural[fi]), "levels": len(logLevels)})
+		c.Rec.Sample(map[string]any{"input": desc, "len": len(data), "entries": len(nat), "levels": len(logLevels)})
 	}
 }
